@@ -433,6 +433,10 @@ class Superposition(SuperpositionDomain, ExprDict):
 
         result = {}
 
+        # Expand products such as A * (3 + cos(2 * t)) so that each
+        # term is classified by itself
+        expr1 = expr1.expand()
+
         # Extract DC components
         dc = expr1.sympy.coeff(tsym, 0)
         dc = ConstantDomainExpression(dc).as_quantity(self.quantity)
@@ -480,6 +484,10 @@ class Superposition(SuperpositionDomain, ExprDict):
                         new[key] += value
                     else:
                         new[key] = value
+            elif kind in new:
+                # A phasor (or dc, noise) component may already have been
+                # extracted from the time-domain part
+                new[kind] += value
             else:
                 new[kind] = value
 
@@ -567,6 +575,13 @@ class Superposition(SuperpositionDomain, ExprDict):
             return kind
 
         val = self.select(kind)
+        if isinstance(kind, str) and kind == 'noise':
+            # Keep the noise identifier of a source with a single noise
+            # component (the total has a new identifier and would be
+            # considered uncorrelated with the other sources)
+            nkeys = self.noise_keys()
+            if len(nkeys) == 1:
+                val = self[nkeys[0]]
         if (isinstance(kind, str) and kind == 's' and
                 (val.is_causal or val.is_dc or val.is_ac)):
             # Convert to time representation so that can re-infer
